@@ -197,6 +197,11 @@ func (g *G) stmt(c *gctx) []*N {
 			add(3, func() []*N { return g.closureFactory(c) })
 			add(3, func() []*N { return g.nestedCallArgs(c) })
 			add(3, func() []*N { return g.lateShadow(c) })
+			add(5, func() []*N { return g.shadowCross(c) })
+			add(2, func() []*N { return g.condRaises(c) })
+		}
+		if P.Cross || P.Control {
+			add(3, func() []*N { return g.moduleAbrupt(c) })
 		}
 	}
 	if len(c.fns) > 0 {
@@ -1098,6 +1103,100 @@ func (g *G) scopeCross(c *gctx) []*N {
 	}
 	g.feat("scope_cross")
 	return append(out, after...)
+}
+
+// shadowCross: a name is bound in the current scope; then one of the forms that ALWAYS bind in their own
+// block or invocation (var inside a block, a for-in variable over a list or over a channel, a catch
+// variable, a function parameter) binds the same name; afterwards the outer binding must be what it was.
+func (g *G) shadowCross(c *gctx) []*N {
+	z := fmt.Sprintf("z%d", g.id())
+	keep := g.val()
+	out := []*N{{K: "let", Ps: []string{z}, Ns: []*N{keep}}}
+	see := func() *N { return &N{K: "expr", Ns: []*N{P1(g.id(), Id(z))}} }
+	hi := 5
+	if g.prof.HostChan {
+		hi = 7
+	}
+	switch g.n(0, hi, "shadowform") {
+	case 0:
+		g.feat("shadow_var_in_block")
+		out = append(out, &N{K: "if", Ns: []*N{{K: "true"}}, Ss: [][]*N{{{K: "var", Ps: []string{z}, Ns: []*N{g.val()}}, see()}}})
+	case 1:
+		g.feat("shadow_forin_variable")
+		out = append(out, &N{K: "forin", Ps: []string{z}, Ns: []*N{{K: "list", Ns: []*N{g.val(), g.val()}}}, Ss: [][]*N{{see()}}})
+	case 2:
+		g.feat("shadow_catch_variable")
+		out = append(out, &N{K: "try", S: z, Ss: [][]*N{{{K: "throw", Ns: []*N{Str("E")}}}, {see()}}})
+	case 3:
+		g.feat("shadow_function_parameter")
+		out = append(out, &N{K: "expr", Ns: []*N{{K: "acall", Ns: []*N{{K: "fn", Ps: []string{z}, Ss: [][]*N{{see(), {K: "let", Ps: []string{z}, Ns: []*N{g.val()}}, {K: "ret", Ns: []*N{Id(z)}}}}}, g.val()}}}})
+	case 4:
+		g.feat("shadow_catch_variable_inside_function")
+		g.nextFn++
+		fn := fmt.Sprintf("sc%d", g.nextFn)
+		out = append(out, &N{K: "expr", Ns: []*N{{K: "fn", S: fn, Ss: [][]*N{{{K: "try", S: z, Ss: [][]*N{{{K: "throw", Ns: []*N{Str("E")}}}, {see()}}}, {K: "ret", Ns: []*N{Int(0)}}}}}}})
+		out = append(out, &N{K: "expr", Ns: []*N{Call(fn)}})
+	case 5:
+		g.feat("shadow_var_in_loop_body")
+		ctr := g.ctr()
+		out = append(out, &N{K: "cfor", Ns: []*N{{K: "let", Ps: []string{ctr}, Ns: []*N{Int(0)}}, Bin("<", Id(ctr), Int(2)), {K: "inc", S: ctr, I: 1}}, Ss: [][]*N{{{K: "var", Ps: []string{z}, Ns: []*N{g.val()}}, see()}}})
+	default:
+		// for-in over a channel (closed, holding the items): the loop variable is bound like over a list
+		g.feat("shadow_forin_variable_over_channel")
+		out = append(out, &N{K: "forin", B: true, Ps: []string{z}, Ns: []*N{{K: "list", Ns: []*N{g.val(), g.val()}}}, Ss: [][]*N{{see()}}})
+	}
+	return append(out, see())
+}
+
+// condRaises: a `for cond { }` loop whose condition raises an error on its second round, after the body
+// has declared a name that an enclosing scope binds too; the loop sits in a try block whose catch block
+// reads the name: it must see the enclosing binding (the loop's scope is gone).
+func (g *G) condRaises(c *gctx) []*N {
+	g.feat("loop_condition_raises_after_body_shadowed_a_name")
+	z := fmt.Sprintf("z%d", g.id())
+	ctr := g.ctr()
+	cond := &N{K: "or", Ns: []*N{Bin("<", Id(ctr), Int(1)), Id("zz")}} // zz is never bound: the second round fails
+	if g.chance(40) {
+		cond = &N{K: "or", Ns: []*N{Bin("<", Id(ctr), Int(1)), {K: "pfail", I: g.id()}}}
+	}
+	body := []*N{{K: "var", Ps: []string{z}, Ns: []*N{g.val()}}, {K: "let", Ps: []string{ctr}, Ns: []*N{Bin("+", Id(ctr), Int(1))}}, {K: "expr", Ns: []*N{P1(g.id(), Id(z))}}}
+	return []*N{
+		{K: "let", Ps: []string{z}, Ns: []*N{g.val()}},
+		{K: "var", Ps: []string{ctr}, Ns: []*N{Int(0)}},
+		{K: "try", B: g.chance(50), Ss: [][]*N{{{K: "loop", Ns: []*N{cond}, Ss: [][]*N{body}}}, {{K: "expr", Ns: []*N{P1(g.id(), Id(z))}}}, {{K: "expr", Ns: []*N{P1(g.id(), Id(z))}}}}},
+		{K: "expr", Ns: []*N{P1(g.id(), Id(z))}},
+	}
+}
+
+// moduleAbrupt: the body of a module statement is left early - by continue or break to an enclosing
+// loop, by return from the enclosing function, by an error caught outside - and right afterwards a name
+// that only the module binds is probed: the module's bindings are reachable only through the module's name.
+func (g *G) moduleAbrupt(c *gctx) []*N {
+	g.nextMod++
+	mod := fmt.Sprintf("ma%d", g.nextMod)
+	mq := fmt.Sprintf("mq%d", g.nextMod)
+	decl := &N{K: "var", Ps: []string{mq}, Ns: []*N{g.val()}}
+	switch g.n(0, 3, "modexit") {
+	case 0:
+		g.feat("module_body_left_by_continue")
+		return []*N{{K: "forin", Ps: []string{"it"}, Ns: []*N{{K: "list", Ns: []*N{Int(1), Int(2)}}}, Ss: [][]*N{{g.existOnly(mq), {K: "module", S: mod, Ss: [][]*N{{decl, {K: "cont"}}}}, {K: "expr", Ns: []*N{P(g.id())}}}}}, g.existOnly(mq)}
+	case 1:
+		g.feat("module_body_left_by_break")
+		return []*N{{K: "forin", Ps: []string{"it"}, Ns: []*N{{K: "list", Ns: []*N{Int(1), Int(2)}}}, Ss: [][]*N{{{K: "module", S: mod, Ss: [][]*N{{decl, {K: "break"}}}}, {K: "expr", Ns: []*N{P(g.id())}}}}}, g.existOnly(mq)}
+	case 2:
+		g.feat("module_body_left_by_return")
+		g.nextFn++
+		fn := fmt.Sprintf("mf%d", g.nextFn)
+		v := g.val()
+		return []*N{
+			{K: "expr", Ns: []*N{{K: "fn", S: fn, Ss: [][]*N{{{K: "module", S: mod, Ss: [][]*N{{decl, {K: "ret", Ns: []*N{v}}}}}, {K: "expr", Ns: []*N{P(g.id())}}, {K: "ret", Ns: []*N{Int(0)}}}}}}},
+			{K: "expr", Ns: []*N{P1(g.id(), Call(fn))}},
+			g.existOnly(mq),
+		}
+	default:
+		g.feat("module_body_left_by_error")
+		return []*N{{K: "try", Ss: [][]*N{{{K: "module", S: mod, Ss: [][]*N{{decl, {K: "throw", Ns: []*N{Str("E")}}}}}}, {g.existOnly(mq)}}}, g.existOnly(mq)}
+	}
 }
 
 // lateShadow: a closure made inside a nested block of a function assigns a pool name; it is called,
